@@ -22,18 +22,24 @@ CaUsable(p) == ("client_ca" \notin DOMAIN p) \/ p.client_ca = "proper"
 \* p.roots_form / p.client_ca_form (optional fields): the trusted certificate is given alone ("single") or as the first / last of
 \* several certificates in one PEM ("bundle_first", "bundle_last"); every certificate of a bundle is a trust anchor, so the form
 \* occurs in none of the predicates.
+\* identities outside the enumerated table (extra rows): "chain" = a leaf issued by a sub-CA of the server's client CA, presented with the
+\* sub-CA's certificate (a valid identity of two certificates); "chain_leaf_only" = that leaf alone (no path to the trusted CA: not valid)
+ValidIdentity(p) == p.identity \in {"valid", "chain"}
 ClientAccepted(p) == \/ p.client_auth = "none"
-                     \/ (CaUsable(p) /\ p.client_auth = "required" /\ p.identity = "valid")
-                     \/ (CaUsable(p) /\ p.client_auth = "optional" /\ p.identity \in {"none", "valid"})
+                     \/ (CaUsable(p) /\ p.client_auth = "required" /\ ValidIdentity(p))
+                     \/ (CaUsable(p) /\ p.client_auth = "optional" /\ (p.identity = "none" \/ ValidIdentity(p)))
 \* rustls: a client offering h2 to a server that only speaks http/1.1 aborts the handshake whatever assume_http2 says
 AlpnCompatible(p) == p.alpn # "http/1.1"
 CallTransmitted(p) == p.tls_cfg /\ ServerAuthenticated(p) /\ H2Agreed(p) /\ AlpnCompatible(p) /\ ClientAccepted(p)
-PeerCertsVisible(p) == CallTransmitted(p) /\ p.client_auth # "none" /\ p.identity = "valid"
+PeerCertsVisible(p) == CallTransmitted(p) /\ p.client_auth # "none" /\ ValidIdentity(p)
 \* obs = [call_ok, handler_runs, peer_certs (-1 = none), first_bytes]
 Clauses(p, o) ==
   << <<"C15.CallOnlyOverAuthenticatedH2", o.call_ok => CallTransmitted(p)>>,
      <<"C15.ValidConfigurationWorks", CallTransmitted(p) => o.call_ok>>,
      <<"C15.NoRequestReachesHandlerOtherwise", o.handler_runs = (IF CallTransmitted(p) THEN 1 ELSE 0)>>,
      <<"C15.NeverPlaintext", o.first_bytes \in {"tls_client_hello", "none"}>>,
-     <<"C15.VerifiedPeerCertsExposed", (o.handler_runs = 1) => ((o.peer_certs >= 1) <=> PeerCertsVisible(p))>> >>
+     <<"C15.VerifiedPeerCertsExposed", (o.handler_runs = 1) => ((o.peer_certs >= 1) <=> PeerCertsVisible(p))>>,
+     \* p.presented (optional field): digests of the certificates of the client's identity, in the order presented: what the handler is
+     \* shown is that chain, whole and in order
+     <<"C15.VerifiedPeerCertsExposed", (o.handler_runs = 1 /\ PeerCertsVisible(p) /\ "presented" \in DOMAIN p) => o.peer_digests = p.presented>> >>
 =============================================================================
